@@ -31,7 +31,7 @@
 
    Every CBOR_ASSERT of the C functions is an [assert_] / [fail (FAssert id)] here (ids 61-77).
    Definitions only. *)
-From CB Require Export HHist2 PUtf8.
+From CB Require Export HHist2 PUtf8 PWiden.
 Local Open Scope N_scope.
 
 (* client state: the handle table of HHist.v and the set of items whose value is not yet written *)
@@ -107,13 +107,13 @@ Definition preds_of (rc : N) (n : node) : list N :=
   ++ meta_of n ++ [rc].
 
 (* the value getters: cbor_get_int and cbor_get_uintN; cbor_float_get_floatN as bits (NaN canonical)
-   and "cbor_float_get_float equals the conversion of that value to double" (decided by the harness);
-   cbor_ctrl_value and, on a boolean, cbor_get_bool *)
+   and cbor_float_get_float as the bits of the double it returns (NaN canonical; PWiden: the float of a
+   half / single item widened to binary64); cbor_ctrl_value and, on a boolean, cbor_get_bool *)
 Definition values_of (n : node) : list N :=
   match n with
   | NInt _ _ v => [v; v]
-  | NFloat F64 bits => [canon64 bits; 1]
-  | NFloat _ bits => [canon32 bits; 1]
+  | NFloat F64 bits => [canon64 bits; float_get_float_bits F64 bits]
+  | NFloat w bits => [canon32 bits; float_get_float_bits w bits]
   | NCtrl v => v :: (if (v =? 20) || (v =? 21) then [b2n (v =? 21)] else [])
   | _ => []
   end.
